@@ -73,6 +73,23 @@ PROPS: Dict[str, dict] = {
             "declined": "bit-identity of bystander amplitudes as numbers (follows from the blocks not being written)"},
 }
 
+# A property whose statement quantifies over storage layouts / representation levels / composite operations presupposes
+# the properties that make those layouts and representations faithful: a violation of one of *those* is also a violation of it.
+DEPENDS: Dict[str, tuple] = {
+    "C01": ("C02", "C08"),
+    "C03": ("C01", "C02", "C08"),
+    "C04": ("C02", "C08"),
+    "C05": ("C02", "C08"),
+    "C06": ("C02", "C08"),
+    "C09": ("C02", "C08"),
+    "C11": ("C01", "C02", "C03", "C08", "C10", "C12"),
+}
+
+
+def scope(pid: str) -> set:
+    return {pid} | set(DEPENDS.get(pid, ()))
+
+
 _CACHE: Dict[int, Dict[str, List[Ob]]] = {}
 
 
@@ -98,7 +115,7 @@ def collect(repo: Repo, pid: str, tier: str) -> List[Ob]:
     for rn in names:
         if TIER.get(rn, "quick") == "thorough" and tier != "thorough":
             continue
-        obs += [o for o in run_rule(repo, rn) if pid in o.props]
+        obs += [o for o in run_rule(repo, rn) if scope(pid) & set(o.props)]
     return obs
 
 
@@ -111,7 +128,7 @@ def run_property(repo: Repo, pid: str, tier: str, seed: int, verbose: bool = Fal
     for o in obs:
         if o.status != "violation":
             continue
-        if known_match(pid, o, known):
+        if any(known_match(q, o, known) for q in scope(pid)):
             known_hits.append(o)
         else:
             violations.append(o)
